@@ -223,27 +223,48 @@ struct Prop {
 // an ordinary, shrinkable failure (enabled with VERIF_FORK=1).
 static inline void begin_case(const KV &c);
 static inline std::string forked_check(const Prop &p, const KV &c) {
-    int fds[2], efds[2];
-    if (pipe(fds) != 0 || pipe(efds) != 0) return "pipe() failed";
+    // The child's verdict travels through a pipe (short); its stderr goes to an unlinked temporary file, so that a
+    // long sanitizer report can never fill a pipe and block the child while the parent waits for it.
+    int fds[2];
+    if (pipe(fds) != 0) return "pipe() failed";
+    char tmpl[] = "/tmp/verif-stderr-XXXXXX";
+    int efd = mkstemp(tmpl);
+    if (efd < 0) { close(fds[0]); close(fds[1]); return "mkstemp() failed"; }
+    unlink(tmpl);
     fflush(stdout); fflush(stderr);
     pid_t pid = fork();
     if (pid < 0) return "fork() failed";
     if (pid == 0) {
-        close(fds[0]); close(efds[0]);
-        dup2(efds[1], 2);
+        close(fds[0]);
+        dup2(efd, 2);
         std::string err = p.check(c);
+        if (err.size() > 60000) err.resize(60000);          // stays below the pipe capacity
         if (!err.empty()) { ssize_t w = write(fds[1], err.data(), err.size()); (void)w; }
         _exit(err.empty() ? 0 : 3);
     }
-    close(fds[1]); close(efds[1]);
+    close(fds[1]);
+    // wait with a budget: a case that does not come back is inconclusive (counted), never a violation
+    static const long budget_ms = getenv("VERIF_CASE_TIMEOUT") ? atol(getenv("VERIF_CASE_TIMEOUT")) * 1000 : 600000;
+    int status = 0;
+    long waited = 0;
+    bool timed_out = false;
+    for (;;) {
+        pid_t r = waitpid(pid, &status, WNOHANG);
+        if (r == pid) break;
+        if (r < 0) { status = 0; break; }
+        if (waited >= budget_ms) { kill(pid, SIGKILL); waitpid(pid, &status, 0); timed_out = true; break; }
+        usleep(waited < 200 ? 1000 : 10000);
+        waited += waited < 200 ? 1 : 10;
+    }
     std::string err, errout;
     char buf[4096];
     ssize_t n;
     while ((n = read(fds[0], buf, sizeof buf)) > 0) err.append(buf, (size_t)n);
-    while ((n = read(efds[0], buf, sizeof buf)) > 0) { if (errout.size() < 200000) errout.append(buf, (size_t)n); }
-    close(fds[0]); close(efds[0]);
-    int status = 0;
-    waitpid(pid, &status, 0);
+    close(fds[0]);
+    lseek(efd, 0, SEEK_SET);
+    while ((n = read(efd, buf, sizeof buf)) > 0) { if (errout.size() < 200000) errout.append(buf, (size_t)n); }
+    close(efd);
+    if (timed_out) { runner().tag("case-timeout(inconclusive)"); return ""; }
     if (WIFEXITED(status) && WEXITSTATUS(status) == 0) return "";
     if (WIFEXITED(status) && WEXITSTATUS(status) == 3) return err.empty() ? "check failed" : err;
     // died: summarise the sanitizer report
